@@ -35,6 +35,21 @@ def key_cmp(e):
     return None
 
 
+def chain_sorted_all_through_scan(ctx, u, ra):
+    # every element of the incoming ring goes through that scan: no bulk append of the ring, no early return with elements left
+    fcs = u.func('parsec_list_nolock_chain_sorted')
+    ring = fcs.params[1]['n']
+    ALLOWED = {'parsec_list_nolock_is_empty', 'parsec_list_item_ring_chop', 'parsec_list_nolock_add', 'parsec_list_nolock_add_before'}
+    loopv = {s_.lhs.s for s_ in fcs.stores() if s_.lhs.k == 'ref' and s_.rhs is not None and s_.rhs.s == ring}
+    other = [c for c in fcs.calls() if c.fn not in ALLOWED and any(x.k == 'ref' and x.s in ({ring} | loopv) for a in (c.args or ()) for x in a.walk())]
+    rets = [r for r in fcs.returns()]
+    early = [r for r in rets if not fcs.guarded_by(r.point, lambda a, t: (a.s == ring and t is False) or (a.k == 'bin' and a.op == '==' and ring in (a.ch[0].s, a.ch[1].s) and t is True))]
+    ra.expect(not other and not early, 'chain_sorted:all-through-scan', (other[0].loc if other else early[0].loc if early else fcs.where()),
+              'chain_sorted must insert every element of the ring by the sorted scan (the ring need not be sorted): %s' %
+              ('%s links the ring without the scan' % other[0].fn if other else 'it returns early with elements of the ring not inserted'),
+              note='chain_sorted: ring elements linked only by add / add_before inside the scan; no early return')
+
+
 def run(ctx):
     ctx.explanation = ('Static clauses: (a) sorted insertion — each sorted insert is one of the (scan direction, stop test, insertion side) triples that are both ordered (non-increasing priority) and stable: forward scan / stop at the '
                        'first element the new one is strictly higher than / insert before; backward scan / stop at the first element the new one is not strictly higher than / insert after; the ring insert stops at the first element '
@@ -108,6 +123,7 @@ def run(ctx):
         ok = ok and len(cont) == 1 and f.precedes(cs[0], cont[0])
     ra.expect(ok, 'chain_sorted', cs[0].loc if cs else f.where(), 'chain_sorted must scan forward, stop at the first element the new one is strictly higher than, insert before it, and restart from the head only when the new element is strictly higher than the previous insert',
               note='chain_sorted: forward, stop on new > cur, insert before, resume from last insert')
+    chain_sorted_all_through_scan(ctx, u, ra)
     f = u.func('parsec_list_item_ring_push_sorted'); ctx.functions_analysed.add(f.name)
     item = f.params[1]['n']
     rp = f.calls('parsec_list_item_ring_push')
